@@ -692,6 +692,9 @@ func c07Decrypt(c *Ctx, mk *ssa.Function, tr *an.Tracer) {
 			}
 		}
 	}
+	// a reply of the wrong kind has to reach the assertion that refuses it: the request helper below the typed
+	// helpers re-issues a request only on the retry marker or a handled migrate, never on a dh_gen_retry
+	c.reissueOnlyWhenAsked("R07.T")
 	// the fingerprint is a 64-bit number and is compared as one: a comparison narrowed to 32 bits accepts an offered
 	// fingerprint that differs from the configured key's in its other half
 	if mk := c.P.Func(load.RootMod, "*MTProto", "makeAuthKey"); mk != nil {
@@ -793,7 +796,7 @@ func c07Decrypt(c *Ctx, mk *ssa.Function, tr *an.Tracer) {
 			for _, b := range mk.Blocks {
 				ret, ok := an.AsReturn(b.Instrs[len(b.Instrs)-1])
 				if !ok || len(ret.Results) != 1 || b == mk.Recover {
-					continue
+					continue // the exit after a recovered panic is the recover-reports-error obligation's
 				}
 				if an.InstrDominates(done, ret) {
 					continue // the completed exchange: its result is the result of saving the session
